@@ -83,7 +83,18 @@ def gen_input(rng, kind):
     if kind == "raw":
         return GM.raw_metadata(rng)
     if kind == "elf":
+        if rng.random() < 0.5:
+            from gen import elfgen as E
+            return E.build(E.gen_desc(rng)).hex()
         return GM.elf_bytes(rng).hex()
+    # half of the time the richer per-area generators (grammar + token-level damage) of the area's own property
+    if rng.random() < 0.5:
+        try:
+            alt = _area_input(rng, kind)
+            if alt is not None:
+                return alt
+        except Exception:  # noqa: BLE001  (a generator hiccup must never become a verdict)
+            pass
     s = base[kind]()
     r = rng.random()
     if r < 0.35:
@@ -93,6 +104,32 @@ def gen_input(rng, kind):
             s = GV.malformed(rng, s)
         return s
     return "".join(rng.choice(GV.ODD_CHARS + list("aZ09 ()[];,@'\"<>=!~")) for _ in range(rng.randrange(0, 12)))
+
+
+def _area_input(rng, kind):
+    if kind == "license":
+        from gen import licenses as GL
+        toks = GL.expr(rng)
+        for _ in range(rng.choice([0, 1, 1, 2])):
+            toks = GL.damage(rng, toks)[1]
+        return GL.spell(rng, toks)
+    if kind == "marker":
+        from gen import markers as GMK
+        pool = GMK.make_pool(rng)
+        s = GMK.render(GMK.formula(rng, pool), rng)
+        return GMK.damage(rng, s) if rng.random() < 0.6 else s
+    if kind == "requirement":
+        from props.C08 import render, req_struct
+        s = render(rng, req_struct(rng), loose=True)
+        return GV.malformed(rng, s) if rng.random() < 0.5 else s
+    if kind == "clauses":
+        cl = [GS.clause(rng) if rng.random() < 0.8 else GS.malformed_clause(rng) for _ in range(rng.randrange(0, 5))]
+        return rng.choice([",", " , ", ",,", ", "]).join(cl)
+    if kind == "email":
+        from gen import metadata as GMD
+        doc = GMD.build_doc(GMD.document(rng))
+        return doc.decode("utf-8", "surrogateescape") if isinstance(doc, bytes) else doc
+    return None
 
 
 class C11(Prop):
